@@ -146,3 +146,45 @@ def _rec(case, out, stats, sim, kind):
     rec["key"] = "%s|%s|%s" % (feats["cell"], case.get("d"), case.get("ops"))
     rec["outcome"] = dict(stats)
     return rec
+
+
+def run_pe(case):
+    """Partial evaluations of ONE original domain whose shape function has two outer variables: every evaluated
+    domain, given the remaining variable as a parameter row, must report the reference measure at exactly the
+    values of its own step (the original and earlier results must not leak values into later ones)."""
+    out, stats, log = [], {}, []
+    dom = case["dom"]
+    sim = SimRNG(case["rng"], fault=None)
+    with sim:
+        try:
+            D = B.build(dom)
+            kept = []
+            for step, op in enumerate(case["ops"]):
+                fix, rest = op["fix"], op["rest"]
+                De = D(**{v: torch.tensor([[float(x)]]) for v, x in fix.items()})
+                kept.append((De, fix, rest))
+                for (Dk, fk, rk) in (kept if op.get("recheck") else kept[-1:]):
+                    pspace = [(v, 1) for v in sorted(rk)]
+                    params = B.params_points(pspace, [[rk[v] for v, _ in pspace]] if pspace else [])
+                    got = float(torch.as_tensor(Dk.volume(params)).reshape(-1)[0])
+                    P = {v: np.asarray([[float(x)]]) for v, x in {**fk, **rk}.items()}
+                    want = float(G.measure(dom, P, 1)[0])
+                    stats["volumes_direct"] = stats.get("volumes_direct", 0) + 1
+                    stats["ops_judged"] = stats.get("ops_judged", 0) + 1
+                    if not math.isclose(got, want, rel_tol=1e-4, abs_tol=1e-7):
+                        out.append(viol("C10", "partial-evaluation", "volume-of-evaluated-domain-differs-from-measure-at-its-values", "",
+                                        got=got, want=want, step=step, fixed=sorted(fk)))
+                        break
+                log.append(["pe", sorted(fix)])
+            # the original with everything supplied
+            full = case["full"]
+            pspace = [(v, 1) for v in sorted(full)]
+            got = float(torch.as_tensor(D.volume(B.params_points(pspace, [[full[v] for v, _ in pspace]]))).reshape(-1)[0])
+            want = float(G.measure(dom, {v: np.asarray([[float(x)]]) for v, x in full.items()}, 1)[0])
+            stats["volumes_direct"] = stats.get("volumes_direct", 0) + 1
+            if not math.isclose(got, want, rel_tol=1e-4, abs_tol=1e-7):
+                out.append(viol("C10", "partial-evaluation", "volume-of-the-original-changed", "", got=got, want=want))
+        except Exception as ex:
+            out.append(viol("C10", "run", "raises:" + type(ex).__name__, innermost_site(ex.__traceback__),
+                            msg=traceback.format_exc()[-300:]))
+    return _rec(case, out, stats, sim, "pe")
